@@ -5,7 +5,11 @@ OBLIGATIONS = [
          functions=["asmsub.c:CompressLine", "asmsub.c:ExpandLine", "asmsub.c:ReplaceLine", "asmsub.c:ReplaceLineUnchecked", "asmsub.c:ReplaceToken", "asmsub.c:IsValidParameterName", "asmsub.c:SetToken"],
          bounds="body line <= 4 characters over {a,b,1,_,blank,comma}, parameter name 1..2 letters, parameter number 0..19, argument <= 2 characters over {x,7,_}",
          assumes=["line buffer of 32 bytes (no reallocation)", "case-sensitive matching", "no backslash-delimited \\\\name\\\\ form, no quotes"]),
+    dict(name="arg_binding", src="bind.c", include=["as.c"], units=["asmdef.c", "stringlists.c", "strcomp.c", "dynstr.c"], stubs=["diag.c", "fmt_off.c"], defs=["STRINGSIZE=16", "FMT_OFF_NO_PRINTF"], nobody_mode="nondet",
+         unwind=8, mem_gb=24, timeout=1200, functions=["as.c:ExpandMacro", "as.c:GenerateProcessor", "stringlists.c:AddStringListFirst", "stringlists.c:AddStringListLast"],
+         bounds="macro with 2 parameters with defaults, 0..2 call arguments each from {empty, x, A=, A=y, B=, B=z}",
+         assumes=["QuotPos/as_strdup/blank trimming replaced by minimal versions", "frame assumption for the remaining callees"]),
 ]
-META = dict(outside=["end-to-end equivalence of a construct program with its hand expansion (two whole assembler runs)", "argument binding (positional/keyword/default), ALLARGS/ARGCOUNT",
+META = dict(outside=["end-to-end equivalence of a construct program with its hand expansion (two whole assembler runs)", "ALLARGS/ARGCOUNT, excess arguments, SHIFT",
                      "REPT/IRP/IRPC/WHILE stepping, nesting, EXITM/SHIFT", "INCLUDE/BINCLUDE", "local-label privacy"],
             assumptions=["malloc never fails"])
